@@ -108,6 +108,7 @@ from xandikos.store import (
 )
 
 from .icalendar import CalendarFilter, ICalendarFile
+from .store.config import FILENAME as CONFIG_FILENAME
 from .store.git import GitStore, TreeGitStore
 from .vcard import VCardFile
 
@@ -401,6 +402,9 @@ class StoreBasedCollection:
     async def create_member(
         self, name: str, contents: Iterable[bytes], content_type: str
     ) -> tuple[str, str]:
+        if name == CONFIG_FILENAME:
+            # Holds the collection's own metadata; never a member
+            raise webdav.BadRequestError(f"{name} is a reserved name")
         try:
             (name, etag) = self.store.import_one(name, content_type, contents)
         except InvalidFileContents as exc:
